@@ -1,4 +1,5 @@
 pub mod api;
+pub mod apihist;
 pub mod flow;
 pub mod gamma;
 pub mod matrix;
